@@ -58,11 +58,11 @@ def stageOf (op : String) (p : List Int) (var : String) (cbs : List Cb) : Option
 
 /-- the plugin's stand-alone operators; with the licence off they are `return source` -/
 def standalone (lic : Bool) : String → Option (AnyM Int)
-  | "CntN" => some (if lic then AnyM.counting cntNextM else AnyM.of offM)
-  | "CntE" => some (if lic then AnyM.counting cntErrorM else AnyM.of offM)
-  | "CntC" => some (if lic then AnyM.counting cntCompleteM else AnyM.of offM)
-  | "CntS" => some (if lic then AnyM.counting cntSubM else AnyM.of offM)
-  | "Lag" => some (if lic then AnyM.counting lagM else AnyM.of offM)
+  | "CntN" => some (if lic then AnyM.cntNext else AnyM.off)
+  | "CntE" => some (if lic then AnyM.cntError else AnyM.off)
+  | "CntC" => some (if lic then AnyM.cntComplete else AnyM.off)
+  | "CntS" => some (if lic then AnyM.cntSub else AnyM.off)
+  | "Lag" => some (if lic then AnyM.lag else AnyM.off)
   | _ => none
 
 /-- a chain element `Name:params:variant:callback`; the flag says "stand-alone counter" -/
@@ -119,7 +119,8 @@ def run (c : Case) : String :=
     let rs := (scripts.zip cuts).map (fun sc => runSub ee lic hot sub ms sc.1 (if hot then sc.2 else none))
     let tot := rs.foldl (fun acc r => acc.add r.counters) ({ proc := ms.map (fun _ => 0) } : Counters)
     let ex := rs.foldl (fun acc r => addLists acc r.extra) []
-    let exSel := ((elems.map (·.2)).zip ex).filterMap (fun p => if p.1 then some p.2 else none)
+    -- with the licence off the stand-alone operators hold no counter: the harness reads 0
+    let exSel := if lic then ex else (elems.filter (·.2)).map (fun _ => 0)
     let m := if !ee then "-" else if !lic then "off"
       else s!"subs:{tot.subs},in:{tot.inN},out:{tot.outN},lag:{tot.lag},proc:{renderNatsDot tot.proc}"
     let x := renderNatsDot exSel
